@@ -137,6 +137,19 @@ pub fn run(ctx: &mut Ctx) {
             let a: Vec<M> = (0..k).map(|_| g.assertion_element(1)).collect();
             (s, a)
         };
+        // now and then the assertion set is one whose digests share their first 1..4 bytes
+        let (subject_m, asr_m) = if case % 16 == 5 {
+            let adv = gen::adversarial_models();
+            match &adv[(case / 16) as usize % 8].1 {
+                M::Node(s, a) => {
+                    ctx.count("digest_prefix_collision_sets");
+                    ((**s).clone(), a.iter().take(kmax).cloned().collect())
+                }
+                _ => (subject_m, asr_m),
+            }
+        } else {
+            (subject_m, asr_m)
+        };
         // distinct assertions only: one digest must not appear in two different forms (plain and
         // obscured), otherwise "the same set" is ill-defined - whichever form is added first stays
         let asr_m: Vec<M> = {
